@@ -36,6 +36,11 @@ template <class P> struct PolyW {
     if (v) { PPL::BHRZ03_Certificate c(older); return c.compare(newer) == 1 ? 1 : 0; }
     PPL::H79_Certificate c(older); return c.compare(newer) == 1 ? 1 : 0;
   }
+  // the library's certificates of two objects denoting the same set must compare equal
+  static bool cert_same(const P& a, const P& b) {
+    PPL::BHRZ03_Certificate c1(a), c2(b); PPL::H79_Certificate h1(a), h2(b);
+    return c1.compare(c2) == 0 && h1.compare(h2) == 0 && c1.compare(b) == 0 && h1.compare(b) == 0;
+  }
 };
 template <> struct WOps<PPL::C_Polyhedron> : PolyW<PPL::C_Polyhedron> {};
 template <> struct WOps<PPL::NNC_Polyhedron> : PolyW<PPL::NNC_Polyhedron> {};
@@ -46,6 +51,7 @@ template <> struct WOps<PPL::Grid> {
   static void plain(int v, P& y, const P& x, unsigned* tp) { if (v) y.generator_widening_assign(x, tp); else y.congruence_widening_assign(x, tp); }
   static bool limited(int v, int form, P& y, const P& x, const Constraint_System&, unsigned* tp) { (void) v; (void) form; (void) y; (void) x; (void) tp; return false; }
   static int cert(int, const P& older, const P& newer) { PPL::Grid_Certificate c(older); return c.compare(newer) == 1 ? 1 : 0; }
+  static bool cert_same(const P& a, const P& b) { PPL::Grid_Certificate c1(a), c2(b); return c1.compare(c2) == 0 && c1.compare(b) == 0 && c2.compare(a) == 0; }
 };
 template <class P> struct ShapeW {
   static int count() { return Dom<P>::oct ? 2 : 3; }
@@ -72,6 +78,7 @@ template <class P> struct ShapeW {
     for (auto i = cb.begin(); i != cb.end(); ++i) ++nb;
     return nb < na ? 1 : 0;
   }
+  static bool cert_same(const P&, const P&) { return true; }
 };
 template <> struct WOps<BDQ> : ShapeW<BDQ> {};
 template <> struct WOps<OSQ> : ShapeW<OSQ> {};
@@ -82,6 +89,7 @@ template <> struct WOps<RBox> {
   static void plain(int, P& y, const P& x, unsigned* tp) { y.CC76_widening_assign(x, tp); }
   static bool limited(int, int form, P& y, const P& x, const Constraint_System& cs, unsigned* tp) { if (form != 1) return false; y.limited_CC76_extrapolation_assign(x, cs, tp); return true; }
   static int cert(int, const P&, const P&) { return -1; }
+  static bool cert_same(const P&, const P&) { return true; }
 };
 
 template <class D> struct WidenHarness : Harness {
@@ -127,6 +135,11 @@ template <class D> struct WidenHarness : Harness {
     }
     else if (h == 4) { if (may_grow && dim > 0) { (void) z.minimized_constraints(); z.unconstrain(Variable((dimension_type) var % dim)); } }
     else if (h == 5) { z.add_space_dimensions_and_embed(1); z.remove_higher_space_dimensions(dim); }
+    if constexpr (Dom<D>::kind == GRID) {   // congruences up to date but not minimized, generators minimized (and the converse)
+      // an identity affine image keeps both descriptions up to date and clears both "minimized" flags
+      if (h == 2 && dim > 0) { (void) z.congruences(); (void) z.grid_generators(); z.affine_image(Variable((dimension_type) var % dim), Linear_Expression(Variable((dimension_type) var % dim))); (void) z.minimized_grid_generators(); }
+      else if (h == 4 && !may_grow && dim > 0) { (void) z.congruences(); (void) z.grid_generators(); z.affine_image(Variable((dimension_type) var % dim), Linear_Expression(Variable((dimension_type) var % dim))); (void) z.minimized_congruences(); }
+    }
   }
 
   static std::string kl(const Op& op, const std::string& v, const std::string& extra) { return std::string(Dom<D>::name()) + "|" + op.kind + "|-|" + v + (extra.empty() ? "" : "|" + extra); }
@@ -165,6 +178,12 @@ template <class D> struct WidenHarness : Harness {
         if (!contains_set(y, *x)) { ctx.violation("C08", "chain-not-ascending", kl(op, vn, ""), "upper bound does not contain its argument (workload defect, not a widening defect)"); break; }
         Constraint_System cs;
         for (int k = 0; k < 2; ++k) cs.insert(OH::make_constraint(c, (dimension_type) dim, false, true));
+        // ---- the library's own certificates depend on the point set only (whatever lazy state the object is in)
+        { bool ey, ex; { D t(y); ey = t.is_empty(); } { D t(*x); ex = t.is_empty(); }
+          if (!ey) { std::unique_ptr<D> ty = canonical(y, (int) idx + 2); ctx.stat("widen.certificate_consistency_checked");
+            if (!WOps<D>::cert_same(y, *ty)) { ctx.violation("C08", "certificate-representation-dependent", kl(op, "", ""), "the convergence certificates of two objects denoting the same set differ"); break; } }
+          if (!ex) { std::unique_ptr<D> tx = canonical(*x, (int) idx + 3);
+            if (!WOps<D>::cert_same(*x, *tx)) { ctx.violation("C08", "certificate-representation-dependent", kl(op, "", "smaller"), "the convergence certificates of two objects denoting the same set differ"); break; } } }
         // ---- plain widening and its twin
         D w(y);
         WOps<D>::plain(v, w, *x, nullptr);
